@@ -15,7 +15,7 @@ RULE = (
     "ihx_gas_dt = 0 (no internal exchanger), then a generated order of build_stream_collection requests (condenser first, evaporator first, "
     "both at once, repeats). oracle: Q_cond = Q_evap + work with work > 0, COP_h = COP_r + 1, S1 >= S0, S3 >= S2, H3 = H2, P0 = Psat(Te), "
     "P1 = P2 = Psat(Tc) with CoolProp's high-level PropsSI as second opinion; emitted hot set sums to Q_cond, cold set to Q_evap, "
-    "temperatures monotone, sets independent of request order. non-trivial = the cycle solved with lift >= 0.5 K; distinct by canonical JSON."
+    "temperatures monotone, sets independent of request order. part carnot_helper (supplementary, anchored helper): generated source profile, condenser ladder and evaporator ladder given to _get_optimal_min_evap_T_for_multi_temperature_carnot_hp; sum Q_cond = sum Q_evap + work, positive work, no negative or scaled-up duties, duties / work = cop. non-trivial = the cycle solved with lift >= 0.5 K (helper: evaporator duty available); distinct by canonical JSON."
 )
 ASSUMPTIONS = [
     "the property is conditional on 'the library solves': an exception inside solve() is counted as not solved (by signature), never as a pass of the assertions",
@@ -235,5 +235,79 @@ def strategy(tier):
     )
 
 
+def eval_carnot(case) -> Outcome:
+    """Supplementary: the anchored multi-temperature Carnot helper keeps condenser = evaporator + work."""
+    import types
+
+    import numpy as np
+    from OpenPinch.analysis.heat_pump_targeting import _get_optimal_min_evap_T_for_multi_temperature_carnot_hp as helper
+
+    out = Outcome()
+    T_hot = np.array(case["T_hot"], dtype=float)
+    H_hot = np.array(case["H_hot"], dtype=float)
+    T_cond = np.array(case["T_cond"], dtype=float)
+    Q_cond0 = np.array(case["Q_cond"], dtype=float)
+    x_evap = np.array(case["x_evap"] + [0.0], dtype=float)
+    args = types.SimpleNamespace(dt_range_max=case["dt_range"], T_hot=T_hot, H_hot=H_hot, Q_hp_target=float(Q_cond0.sum()) * case["target_factor"], price_ratio=case["price_ratio"], Q_amb_max=0.0)
+    ok, res = call_sut(helper, case["T_lo"], [args, T_cond, Q_cond0, x_evap, None])
+    if not ok:
+        out.fail("C18.sut_exception:" + res, f"carnot helper raised {res}: {call_sut.last_message}")
+        return out
+    qc, qe, w, cop = np.asarray(res["Q_cond"], float), np.asarray(res["Q_evap"], float), float(res["work_hp"]), float(res["cop"])
+    if not (np.isfinite(qc).all() and np.isfinite(qe).all() and np.isfinite(w)):
+        if qe.sum() == 0 or not np.isfinite(cop):
+            out.skip = "no-evaporator-duty-available"
+            return out
+        out.fail("C18.carnot_finite", f"non-finite helper output: Q_cond={qc}, Q_evap={qe}, work={w}")
+        return out
+    if float(qe.sum()) <= 0:
+        out.skip = "no-evaporator-duty-available"
+        return out
+    out.nontrivial = True
+    out.labels.add("condenser-limited" if abs(qc.sum() - Q_cond0.sum()) <= 1e-9 * Q_cond0.sum() else "evaporator-limited")
+    scale = max(qc.sum(), 1e-9)
+    if abs(qc.sum() - (qe.sum() + w)) > 1e-9 * scale:
+        out.fail("C18.carnot_first_law", f"sum Q_cond={qc.sum()!r} but sum Q_evap + work = {qe.sum() + w!r}")
+    if w <= 0 or (qc < -1e-12).any() or (qe < -1e-12).any():
+        out.fail("C18.carnot_signs", f"work={w!r}, Q_cond={qc}, Q_evap={qe}")
+    if (qc > Q_cond0 * (1 + 1e-9) + 1e-12).any():
+        out.fail("C18.carnot_condenser_scaled_up", f"condenser duties {qc} exceed the available {Q_cond0}")
+    if cop > 1 and abs(qc.sum() / w - cop) > 1e-6 * cop:
+        out.fail("C18.carnot_cop", f"sum Q_cond / work = {qc.sum() / w!r} but cop = {cop!r}")
+    return out
+
+
+@st.composite
+def carnot_case(draw):
+    n = draw(st.integers(3, 8))
+    top = float(draw(st.integers(40, 120)))
+    T = [top]
+    for _ in range(n - 1):
+        T.append(T[-1] - draw(st.sampled_from([5.0, 10.0, 20.0])))
+    H = [0.0]
+    for _ in range(n - 1):
+        H.append(H[-1] - draw(st.sampled_from([0.0, 10.0, 50.0, 200.0])))
+    nc = draw(st.integers(1, 3))
+    tc = float(draw(st.integers(int(top) + 10, int(top) + 120)))
+    T_cond, Q_cond = [], []
+    for _ in range(nc):
+        T_cond.append(tc)
+        Q_cond.append(draw(st.sampled_from([5.0, 40.0, 150.0, 600.0])))
+        tc -= draw(st.sampled_from([5.0, 15.0]))
+    ne = draw(st.integers(0, 2))
+    return {
+        "T_hot": T,
+        "H_hot": H,
+        "T_cond": T_cond,
+        "Q_cond": Q_cond,
+        "x_evap": [draw(st.sampled_from([0.0, 0.05, 0.1, 0.3])) for _ in range(ne)],
+        "T_lo": float(draw(st.integers(int(T[-1]), int(T[0]) - 1))),
+        "dt_range": float(draw(st.sampled_from([50.0, 100.0, 200.0]))),
+        "price_ratio": draw(st.sampled_from([1.0, 2.5])),
+        "target_factor": draw(st.sampled_from([1.0, 1.0, 1.5])),
+    }
+
+
 PARTS = [Part("cycle", eval_case, {"quick": 2000, "thorough": 60000}, strategy=strategy, min_nontrivial={"quick": 800, "thorough": 25000})]
+PARTS.append(Part("carnot_helper", eval_carnot, {"quick": 1500, "thorough": 40000}, strategy=lambda tier: carnot_case(), min_nontrivial={"quick": 300, "thorough": 8000}))
 MIN_SHARE = {"cycle": {"evap-requested-before-cond": 0.25, "lift<5K": 0.1, "superheat": 0.2, "subcooling": 0.2}}
